@@ -63,10 +63,17 @@ fn main() {
                     eprintln!("a directed document does not parse: {text}");
                     std::process::exit(2);
                 };
+                // packages of this document alone (WAT text), next to the library
+                let own: Vec<(String, Vec<u8>)> = d["packages"].as_object().map(|o| {
+                    o.iter().map(|(n, t)| (n.clone(), wat::parse_str(t.as_str().unwrap()).expect("package of a directed document"))).collect()
+                }).unwrap_or_default();
                 let run = || -> String {
                     let mut m: IndexMap<BorrowedPackageKey, Vec<u8>> = IndexMap::new();
                     for (name, version, bytes) in &all_pkgs {
                         m.insert(BorrowedPackageKey::from_name_and_version(name, version.as_ref()), bytes.clone());
+                    }
+                    for (name, bytes) in &own {
+                        m.insert(BorrowedPackageKey::from_name_and_version(name, None), bytes.clone());
                     }
                     match guarded(|| doc.resolve(m)) {
                         Err(p) => format!("panic: {p}"),
@@ -75,7 +82,22 @@ fn main() {
                             let labels: Vec<String> = e.labels().map(|l| l.map(|x| format!("{}+{}:{}", x.offset(), x.len(), x.label().unwrap_or(""))).collect()).unwrap_or_default();
                             format!("error: {e} {labels:?}")
                         }
-                        Ok(Ok(_)) => "ok".to_string(),
+                        Ok(Ok(r)) => {
+                            // a directed document that resolves: the bytes must not vary either
+                            let mut parts = vec!["ok".to_string()];
+                            for dc in [true, false] {
+                                match guarded(|| r.encode(EncodeOptions { define_components: dc, validate: false, processor: None })) {
+                                    Err(p) => parts.push(format!("panic: {p}")),
+                                    Ok(Err(e)) => {
+                                        use miette::Diagnostic;
+                                        let labels: Vec<String> = e.labels().map(|l| l.map(|x| format!("{}+{}:{}", x.offset(), x.len(), x.label().unwrap_or(""))).collect()).unwrap_or_default();
+                                        parts.push(format!("encode error: {e} {labels:?}"))
+                                    }
+                                    Ok(Ok(b)) => parts.push(wac_verif_harness::util::sha256_hex(&b)),
+                                }
+                            }
+                            parts.join("/")
+                        }
                     }
                 };
                 let first = run();
